@@ -12,16 +12,28 @@ func init() {
 	vpRegister("VPH_C16_update_between_calls", VPH_C16_update_between_calls)
 }
 
-func VPH_C16_update_between_calls() { vpUpdateBetweenCalls([]int{0, 1, 2, 3}) }
+func VPH_C16_update_between_calls() { vpUpdateBetweenCalls([]int{0, 1, 2, 3, 4}) }
 
 // vpUpdateBetweenCalls: kinds lists the policy changes to choose from (0 read-only on, 1 client
-// removed from the allow-list, 2 secure-port rule on, 3 rate limiting on); C09 uses 1 and 2.
+// removed from the allow-list, 2 secure-port rule on, 3 rate limiting on, 4 rate limits tightened on a
+// server that was already limiting generously); C09 uses 1 and 2.
 func vpUpdateBetweenCalls(kinds []int) {
 	fs := vpStdTree()
 	fs.addAbsent("/d/n1")
 	fs.addAbsent("/d/n2")
 	fs.addAbsent("/d/n3")
-	env := vpServer(fs, ExportOptions{})
+	what := kinds[vpChoose("update", 0, len(kinds)-1)]
+	opts := ExportOptions{}
+	if what == 4 {
+		// already rate limiting, generously: the connection's own bucket exists before the update
+		cfg := DefaultRateLimiterConfig()
+		cfg.GlobalRequestsPerSecond = 1000
+		cfg.PerIPRequestsPerSecond, cfg.PerIPBurstSize = 1000, 1000
+		cfg.PerConnectionRequestsPerSecond, cfg.PerConnectionBurstSize = 1000, 1000
+		cfg.CleanupInterval = time.Hour
+		opts.EnableRateLimiting, opts.RateLimitConfig = true, &cfg
+	}
+	env := vpServer(fs, opts)
 	hd := env.handleFor("/d")
 	env.srv.options.UseRecordMarking = true
 	vpSetClock(1_000_000_000)
@@ -34,7 +46,6 @@ func vpUpdateBetweenCalls(kinds []int) {
 		cut = append(cut, len(in))
 		in = append(in, vpClientCall(uint32(300+k), NFS_PROGRAM, NFS_V3, NFSPROC3_MKDIR, a.Bytes())...)
 	}
-	what := kinds[vpChoose("update", 0, len(kinds)-1)]
 	conn := &vpConn{in: in, remote: "10.0.0.5:" + []string{"700", "2000"}[vpChoose("port-class", 0, 1)]}
 	highPort := conn.remote == "10.0.0.5:2000"
 	viaExport := vpBool("via-UpdateExportOptions")
@@ -58,6 +69,15 @@ func vpUpdateBetweenCalls(kinds []int) {
 			cfg.GlobalRequestsPerSecond = 1000
 			cfg.PerIPRequestsPerSecond, cfg.PerIPBurstSize = 1, 1
 			cfg.PerConnectionRequestsPerSecond, cfg.PerConnectionBurstSize = 1000, 1000
+			cfg.CleanupInterval = time.Hour
+			pol.EnableRateLimiting = true
+			pol.RateLimitConfig = &cfg
+		case 4:
+			vpReach("rate-limits-tightened")
+			cfg := DefaultRateLimiterConfig()
+			cfg.GlobalRequestsPerSecond = 1000
+			cfg.PerIPRequestsPerSecond, cfg.PerIPBurstSize = 1000, 1000
+			cfg.PerConnectionRequestsPerSecond, cfg.PerConnectionBurstSize = 1, 1
 			cfg.CleanupInterval = time.Hour
 			pol.EnableRateLimiting = true
 			pol.RateLimitConfig = &cfg
@@ -111,6 +131,10 @@ func vpUpdateBetweenCalls(kinds []int) {
 		} else {
 			vpAssert(vpAnd(r[1].accepted, r[1].status == NFS_OK), "privileged-port-still-served")
 		}
+	case 4:
+		// new per-connection burst of 1, no time passes: the connection's old, generous bucket does not count any more
+		vpAssert(vpAnd(r[1].accepted, made2), "first-call-within-the-new-connection-limit-admitted")
+		vpAssert(vpAnd(!r[2].accepted, !made3), "connection-opened-before-the-update-gets-the-new-connection-limit")
 	case 3:
 		// burst 1 per address and no time passes: exactly one of the two later calls is admitted
 		vpAssert(vpAnd(r[1].accepted, made2), "first-call-within-the-new-limit-admitted")
